@@ -154,6 +154,20 @@ chk("C13",
     "machine-checked proof in Coq (permutation invariance of slot assembly; counter induction) + structure extraction/bit-exact run comparison",
     "DESIGN.md section 6, C13")
 
+chk("C07",
+    "Coq theorems over struct-of-arrays batches where every plumbing operation takes one selector per field: "
+    "gathering with one index vector, Metropolis acceptance with one mask, a freshly evaluated batch, and replacement "
+    "of rows by copies of other rows (same destination/source lists for all fields) each preserve 'x = T u, (logL, blob) "
+    "= L x, u in the cube' for every row; hence the current batch stays coherent along any sequence of such steps; a "
+    "partial mask is refuted by a computed witness. Tie: Gen.Coherent (the selector applied to each field in "
+    "Resampler.run, the accept block, the warm-up replacement; provenance of proposals) + Link; real runs over a "
+    "pairwise covering array with the current batch re-derived from u after every step, every committed batch and "
+    "every posterior output checked exactly.",
+    "Trusted: Coq kernel; python extractor/harness; prior transform and likelihood deterministic; boundary maps keep "
+    "designated coordinates in [0,1] (C16); proposals leave _propose only after check_bounds.",
+    "machine-checked proof in Coq (row-wise invariants of list plumbing) + selector extraction/exact re-derivation on real runs",
+    "DESIGN.md section 6, C07")
+
 for pid in [f"C{i:02d}" for i in range(1, 21)]:
     if pid not in CHECKS:
         NA[pid] = "check not built yet in this session (planned in DESIGN.md section 6); not claimed"
